@@ -1,109 +1,55 @@
-import CollectionsC.Properties.C16Deque
+import CollectionsC.Properties.C14Deque
 import CollectionsC.Properties.C07Deque
 /-! # C08 (deque part) — a refused allocation is atomic
 
-"A refusal fired" is `m.alloc.1 = false` for the allocator call the operation makes (`refusal_fired_iff`
-ties it to the ledger's refusal counter); builders make two calls.  Besides a refusal the deque has one
-more, documented, cause for `CC_ERR_ALLOC`: a full deque at the capacity limit `MAX_POW_TWO` (the C code
-maps `CC_ERR_MAX_CAPACITY` of `expand_capacity` to `CC_ERR_ALLOC`); the `iff` statements name both.
-Everything is for every layout satisfying `Deque.Inv`, every index (finding D3's range of `add_at`
-included: atomicity does not depend on where the element would have gone) and every schedule. -/
+"A refusal fired" is `(m.allocT d.triple).1 = false` for the allocator call the operation makes through the
+deque's triple (`refusal_fired_iff` ties it to the ledger's refusal counter; only the configured triple can
+refuse); builders make two calls.  Besides a refusal the deque has one more, documented, cause for
+`CC_ERR_ALLOC`: a full deque at the capacity limit `MAX_POW_TWO` (the C code maps `CC_ERR_MAX_CAPACITY` of
+`expand_capacity` to `CC_ERR_ALLOC`); the `iff` statements name both.  Everything is for every layout
+satisfying `Deque.Inv`, every index (finding D3's range of `add_at` included: atomicity does not depend on
+where the element would have gone) and **every** refusal schedule, any number of failures. -/
 namespace CC.Properties.C08Deque
 open CC CC.Properties.C05
 
-/-- the allocator reports a refusal exactly when the ledger's refusal counter moves -/
-theorem refusal_fired_iff (m : Mem) : m.alloc.1 = false ↔ m.alloc.2.nrefused = m.nrefused + 1 := by
-  unfold Mem.alloc
-  cases m.sched with
-  | nil => simp
-  | cons b r => cases b <;> simp
-
-theorem expand_fails_iff (d : Deque) (m : Mem) :
-    (d.expandCapacity m).1 ≠ .ok ↔ (d.cap = Gen.MAX_POW_TWO ∨ m.alloc.1 = false) := by
-  by_cases hc : d.cap = Gen.MAX_POW_TWO
-  · rw [Deque.expandCapacity_max d m hc]; simp [hc]
-  · cases ha : m.alloc.1
-    · rw [Deque.expandCapacity_refused d m hc ha]; simp
-    · rw [Deque.expandCapacity_grow d m hc ha]; simp [hc]
+/-- the allocator reports a refusal exactly when the call went to the configured triple and the ledger's
+refusal counter moves -/
+theorem refusal_fired_iff (t : Triple) (m : Mem) :
+    (m.allocT t).1 = false ↔ t = .conf ∧ (m.allocT t).2.nrefused = m.nrefused + 1 := by
+  cases t
+  · simp only [Mem.allocT_conf, true_and]
+    unfold Mem.alloc
+    cases m.sched with
+    | nil => simp
+    | cons b r => cases b <;> simp
+  · simp [Mem.allocT]
 
 /-- **refused_iff**: each allocating operation reports `CC_ERR_ALLOC` exactly when it has to grow (the
 deque is full; `trim`: the capacity has to change) and the allocator refuses — or the capacity limit is
 reached; otherwise its status is `CC_OK` (or `CC_ERR_OUT_OF_RANGE` for an index outside `[0, size)`) -/
 theorem refused_iff (d : Deque) (m : Mem) (x i : Nat) (hi : d.Inv) :
-    ((d.addLast x m).1 = .errAlloc ↔ d.size = d.cap ∧ (d.cap = Gen.MAX_POW_TWO ∨ m.alloc.1 = false)) ∧
-    ((d.addFirst x m).1 = .errAlloc ↔ d.size = d.cap ∧ (d.cap = Gen.MAX_POW_TWO ∨ m.alloc.1 = false)) ∧
+    ((d.addLast x m).1 = .errAlloc ↔ d.size = d.cap ∧ (d.cap = Gen.MAX_POW_TWO ∨ (m.allocT d.triple).1 = false)) ∧
+    ((d.addFirst x m).1 = .errAlloc ↔ d.size = d.cap ∧ (d.cap = Gen.MAX_POW_TWO ∨ (m.allocT d.triple).1 = false)) ∧
     ((d.addAt x i m).1 = .errAlloc ↔
-      i < d.size ∧ d.size = d.cap ∧ (d.cap = Gen.MAX_POW_TWO ∨ m.alloc.1 = false)) ∧
+      i < d.size ∧ d.size = d.cap ∧ (d.cap = Gen.MAX_POW_TWO ∨ (m.allocT d.triple).1 = false)) ∧
     ((d.trimCapacity m).1 = .errAlloc ↔
-      d.cap ≠ d.size ∧ Deque.upperPow2 d.size ≠ d.cap ∧ m.alloc.1 = false) := by
-  refine ⟨?_, ?_, ?_, ?_⟩
-  · constructor
-    · intro h
-      rcases Deque.addLast_spec d x m hi with ⟨a1, _⟩ | ⟨_, _, _, a4, a5⟩
-      · rw [a1] at h; exact absurd h (by decide)
-      · exact ⟨a4, a5.symm⟩
-    · rintro ⟨h1, h2⟩
-      rcases Deque.addLast_spec d x m hi with ⟨_, _, _, _, _, a6⟩ | ⟨a1, _⟩
-      · obtain ⟨b1, b2⟩ := a6 h1
-        rcases h2 with h2 | h2
-        · exact absurd h2 b2
-        · rw [h2] at b1; exact absurd b1 (by decide)
-      · exact a1
-  · constructor
-    · intro h
-      rcases Deque.addFirst_spec d x m hi with ⟨a1, _⟩ | ⟨_, _, _, a4, a5⟩
-      · rw [a1] at h; exact absurd h (by decide)
-      · exact ⟨a4, a5.symm⟩
-    · rintro ⟨h1, h2⟩
-      rcases Deque.addFirst_spec d x m hi with ⟨_, _, _, _, _, a6⟩ | ⟨a1, _⟩
-      · obtain ⟨b1, b2⟩ := a6 h1
-        rcases h2 with h2 | h2
-        · exact absurd h2 b2
-        · rw [h2] at b1; exact absurd b1 (by decide)
-      · exact a1
-  · obtain ⟨_, _, a3, a4⟩ := Deque.addAt_inv d x i m hi
-    constructor
-    · intro h
-      have hne : (d.addAt x i m).1 ≠ .ok := by rw [h]; decide
-      rcases (a4 hne).2 with ⟨e, _⟩ | ⟨_, h1, h2⟩
-      · rw [e] at h; exact absurd h (by decide)
-      · refine ⟨h1, h2, ?_⟩
-        -- the growth step must have failed, otherwise `add_at` would have succeeded
-        have hexp : (d.expandCapacity m).1 ≠ .ok := by
-          intro hok
-          obtain ⟨e1, _, e3, e4, _⟩ := Deque.expandCapacity_ok d m hi hok
-          have hcore := (Deque.addAtCore_inv (d.expandCapacity m).2.1 x i (d.expandCapacity m).2.2 e1
-            (by rw [e3]; exact h1) (by rw [e3, e4]; have := Deque.Inv.cap_pos hi; omega)).1
-          have : (d.addAt x i m).1 = .ok := by
-            unfold Deque.addAt
-            rw [if_neg (by omega), if_pos h2.symm]
-            have hb : ((d.expandCapacity m).1 != Stat.ok) = false := by simp [hok]
-            simp only [hb, Bool.false_eq_true, if_false]
-            exact hcore
-          exact hne this
-        exact (expand_fails_iff d m).mp hexp
-    · rintro ⟨h1, h2, h3⟩
-      have hexp := (expand_fails_iff d m).mpr h3
-      unfold Deque.addAt
-      rw [if_neg (by omega), if_pos h2.symm]
-      have hb : ((d.expandCapacity m).1 != Stat.ok) = true := by simp [hexp]
-      simp only [hb, if_true]
-  · constructor
-    · intro h
-      rcases Deque.trimCapacity_spec d m hi with ⟨a1, _⟩ | ⟨_, _, _, a4, a5⟩
-      · rw [a1] at h; exact absurd h (by decide)
-      · exact ⟨fun hf => a5 (Deque.upperPow2_of_full d hi hf), a5, a4⟩
-    · rintro ⟨h1, h2, h3⟩
-      simp [Deque.trimCapacity, h1, h2, h3]
+      d.cap ≠ d.size ∧ Deque.upperPow2 d.size ≠ d.cap ∧ (m.allocT d.triple).1 = false) :=
+  Deque.errAlloc_iff d m x i hi
+
+/-- the same at the level of histories: which calls of a history are blocked (`C05.flags`) is determined
+call by call by `refused_iff` -/
+theorem history_blocked_iff (d : Deque) (m : Mem) (op : Op) (hi : d.Inv) :
+    blocked d m op = true ↔ needsAlloc d op ∧ ((m.allocT d.triple).1 = false ∨ limitHit d op) :=
+  blocked_iff d m op hi
 
 /-- **atomic**: whenever one of the allocating operations reports an error, the deque is *physically*
-unchanged, the ledger is balanced (nothing leaked, nothing freed twice) and nothing faulted — every
-layout, every index -/
+unchanged, both ledger balances are as they were (nothing leaked, nothing freed twice), nothing faulted and
+the other triple was not touched — every layout, every index -/
 theorem atomic (d : Deque) (m : Mem) (x i : Nat) (hi : d.Inv) :
-    ((d.addFirst x m).1 ≠ .ok → (d.addFirst x m).2.1 = d ∧ Deque.memSame (d.addFirst x m).2.2 m) ∧
-    ((d.addLast x m).1 ≠ .ok → (d.addLast x m).2.1 = d ∧ Deque.memSame (d.addLast x m).2.2 m) ∧
-    ((d.addAt x i m).1 ≠ .ok → (d.addAt x i m).2.1 = d ∧ Deque.memSame (d.addAt x i m).2.2 m) ∧
-    ((d.trimCapacity m).1 ≠ .ok → (d.trimCapacity m).2.1 = d ∧ Deque.memSame (d.trimCapacity m).2.2 m) :=
+    ((d.addFirst x m).1 ≠ .ok → (d.addFirst x m).2.1 = d ∧ Deque.memSame d.triple (d.addFirst x m).2.2 m) ∧
+    ((d.addLast x m).1 ≠ .ok → (d.addLast x m).2.1 = d ∧ Deque.memSame d.triple (d.addLast x m).2.2 m) ∧
+    ((d.addAt x i m).1 ≠ .ok → (d.addAt x i m).2.1 = d ∧ Deque.memSame d.triple (d.addAt x i m).2.2 m) ∧
+    ((d.trimCapacity m).1 ≠ .ok → (d.trimCapacity m).2.1 = d ∧ Deque.memSame d.triple (d.trimCapacity m).2.2 m) :=
   refused_atomic d m x i hi
 
 /-- iterator insertion: deque **and cursor** unchanged; zip insertion: both *contents* and the cursor
@@ -111,11 +57,11 @@ unchanged (the first deque may already have been given a larger buffer when grow
 refused — D11 — which is not observable) -/
 theorem iterators_atomic (it : Deque.Iter) (d d2 : Deque) (x y : Nat) (m : Mem) (hi : d.Inv) (h2 : d2.Inv) :
     ((Deque.iterAdd it d x m).1 ≠ .ok → (Deque.iterAdd it d x m).2.2.1 = d ∧ (Deque.iterAdd it d x m).2.1 = it ∧
-      Deque.memSame (Deque.iterAdd it d x m).2.2.2 m) ∧
+      Deque.memSame d.triple (Deque.iterAdd it d x m).2.2.2 m) ∧
     ((Deque.zipAdd it d d2 x y m).1 ≠ .ok → (Deque.zipAdd it d d2 x y m).2.2.1.abs = d.abs ∧
       (Deque.zipAdd it d d2 x y m).2.2.2.1.abs = d2.abs ∧ (Deque.zipAdd it d d2 x y m).2.1 = it ∧
       (Deque.zipAdd it d d2 x y m).2.2.1.Inv ∧ (Deque.zipAdd it d d2 x y m).2.2.2.1.Inv ∧
-      Deque.memSame (Deque.zipAdd it d d2 x y m).2.2.2.2 m) := by
+      Deque.memSame2 d.triple d2.triple (Deque.zipAdd it d d2 x y m).2.2.2.2 m) := by
   obtain ⟨_, a2, a3, _⟩ := Deque.iterAdd_safe it d x m hi
   obtain ⟨z1, z2, z3, z4, _⟩ := Deque.zipAdd_safe it d d2 x y m hi h2
   exact ⟨fun h => ⟨(a3 h).1, (a3 h).2, a2⟩, fun h => ⟨(z4 h).1, (z4 h).2.1, (z4 h).2.2, z1, z2, z3⟩⟩
@@ -123,16 +69,18 @@ theorem iterators_atomic (it : Deque.Iter) (d d2 : Deque) (x y : Nat) (m : Mem) 
 /-- constructor and builders (`copy_shallow`, `copy_deep`, `filter`): `CC_ERR_ALLOC` exactly when one of
 their two allocator calls is refused; then no object is produced, the source is untouched (it is not an
 output), the header allocated first has been released again (balanced ledger) and nothing faulted -/
-theorem builders_atomic (d : Deque) (confCap : Nat) (cp : Option (Nat → Nat)) (p : Nat → Bool) (m : Mem)
+theorem builders_atomic (d : Deque) (confCap : Nat) (t : Triple) (cp : Option (Nat → Nat)) (p : Nat → Bool) (m : Mem)
     (hi : d.Inv) :
-    (((Deque.new confCap m).1 = .errAlloc ↔ (m.alloc.1 = false ∨ m.alloc.2.alloc.1 = false)) ∧
-      ((Deque.new confCap m).1 ≠ .ok → (Deque.new confCap m).2.1 = none ∧ Deque.memSame (Deque.new confCap m).2.2 m)) ∧
-    (((d.copy cp m).1 = .errAlloc ↔ (m.alloc.1 = false ∨ m.alloc.2.alloc.1 = false)) ∧
-      ((d.copy cp m).1 ≠ .ok → (d.copy cp m).2.1 = none ∧ Deque.memSame (d.copy cp m).2.2 m)) ∧
-    ((d.size ≠ 0 → ((d.filter p m).1 = .errAlloc ↔ (m.alloc.1 = false ∨ m.alloc.2.alloc.1 = false))) ∧
-      ((d.filter p m).1 ≠ .ok → (d.filter p m).2.1 = none ∧ Deque.memSame (d.filter p m).2.2 m)) := by
+    (((Deque.new confCap t m).1 = .errAlloc ↔ ((m.allocT t).1 = false ∨ ((m.allocT t).2.allocT t).1 = false)) ∧
+      ((Deque.new confCap t m).1 ≠ .ok → (Deque.new confCap t m).2.1 = none ∧ Deque.memSame t (Deque.new confCap t m).2.2 m)) ∧
+    (((d.copy cp m).1 = .errAlloc ↔
+        ((m.allocT d.triple).1 = false ∨ ((m.allocT d.triple).2.allocT d.triple).1 = false)) ∧
+      ((d.copy cp m).1 ≠ .ok → (d.copy cp m).2.1 = none ∧ Deque.memSame d.triple (d.copy cp m).2.2 m)) ∧
+    ((d.size ≠ 0 → ((d.filter p m).1 = .errAlloc ↔
+        ((m.allocT d.triple).1 = false ∨ ((m.allocT d.triple).2.allocT d.triple).1 = false))) ∧
+      ((d.filter p m).1 ≠ .ok → (d.filter p m).2.1 = none ∧ Deque.memSame d.triple (d.filter p m).2.2 m)) := by
   refine ⟨⟨?_, ?_⟩, ⟨?_, ?_⟩, ⟨?_, ?_⟩⟩
-  · rcases Deque.new_spec confCap m with ⟨n1, _, _, _, _, _, _, _, n8, n9⟩ | ⟨n1, _, _, n4⟩
+  · rcases Deque.new_spec confCap t m with ⟨n1, _, _, _, _, _, _, _, n8, n9⟩ | ⟨n1, _, _, n4⟩
     · constructor
       · intro h; rw [n1] at h; exact absurd h (by decide)
       · rintro (h | h)
@@ -140,11 +88,11 @@ theorem builders_atomic (d : Deque) (confCap : Nat) (cp : Option (Nat → Nat)) 
         · rw [h] at n9; exact absurd n9 (by decide)
     · exact ⟨fun _ => n4, fun _ => n1⟩
   · intro h
-    rcases Deque.new_spec confCap m with ⟨n1, _⟩ | ⟨_, n2, n3, _⟩
+    rcases Deque.new_spec confCap t m with ⟨n1, _⟩ | ⟨_, n2, n3, _⟩
     · exact absurd n1 h
     · exact ⟨n2, n3⟩
   · rcases Deque.copy_spec d cp m hi with ⟨n1, _⟩ | ⟨n1, _, _, n4⟩
-    · obtain ⟨_, k2, k3⟩ := Deque.copy_mem_ok d cp m hi n1
+    · obtain ⟨k2, k3⟩ := Deque.copy_alloc_ok d cp m n1
       constructor
       · intro h; rw [n1] at h; exact absurd h (by decide)
       · rintro (h | h)
@@ -158,7 +106,7 @@ theorem builders_atomic (d : Deque) (confCap : Nat) (cp : Option (Nat → Nat)) 
   · intro h0
     rcases Deque.filter_spec d p m hi with ⟨e, _⟩ | ⟨_, n1, _⟩ | ⟨_, n1, _, _, n4⟩
     · exact absurd e h0
-    · obtain ⟨_, k2, k3⟩ := Deque.filter_mem_ok d p m hi n1
+    · obtain ⟨k2, k3⟩ := Deque.filter_alloc_ok d p m hi n1
       constructor
       · intro h; rw [n1] at h; exact absurd h (by decide)
       · rintro (h | h)
@@ -167,33 +115,45 @@ theorem builders_atomic (d : Deque) (confCap : Nat) (cp : Option (Nat → Nat)) 
     · exact ⟨fun _ => n4, fun _ => n1⟩
   · intro h
     rcases Deque.filter_spec d p m hi with ⟨_, e, _⟩ | ⟨_, n1, _⟩ | ⟨_, _, n2, n3, _⟩
-    · rw [e]; exact ⟨rfl, Deque.memSame_refl m⟩
+    · rw [e]; exact ⟨rfl, Deque.memSame_refl _ m⟩
     · exact absurd n1 h
     · exact ⟨n2, n3⟩
 
-/-- **continue**: a refused call in the middle of a history leaves the deque physically as it was, so —
-once the allocator succeeds again — the rest of the history produces exactly the outputs and contents of
-the ideal list continued from the content *before* the failed call, i.e. it behaves as if the failed call
-had never happened (`ops₁` is summarised by the arbitrary `Inv` state `d` it leads to) -/
-theorem continue_after_refusal (d : Deque) (m : Mem) (op : Op) (ops : List Op) (hi : d.Inv)
-    (href : (stepM d m op).1.st = some .errAlloc) (hs : (stepM d m op).2.2.sched = [])
-    (hbound : d.size + ops.length ≤ Gen.MAX_POW_TWO) (hfree : d3Free d.abs ops) :
+/-- **continue, every remaining schedule**: a blocked call in the middle of a history leaves the deque
+physically as it was; the rest of the history — under *whatever* refusal schedule remains, further
+failures included — produces exactly the outputs and the final physical state it would have produced had
+the blocked call never been made, on any ledger `m'` with that same remaining schedule (`ops₁` is
+summarised by the arbitrary `Inv` state `d` it leads to).  No D3 exclusion: this is a statement about the
+code's behaviour, not about the ideal list. -/
+theorem continue_after_refusal (d : Deque) (m m' : Mem) (op : Op) (ops : List Op) (hi : d.Inv)
+    (href : blocked d m op = true) (hs : (stepM d m op).2.2.sched = m'.sched) :
     (stepM d m op).2.1 = d ∧
-    (runM d m (op :: ops)).1 = (stepM d m op).1 :: (runS d.abs ops).1 ∧
-    (runM d m (op :: ops)).2.1.abs = (runS d.abs ops).2 ∧ (runM d m (op :: ops)).2.1.Inv := by
-  have hsame := C16Deque.error_is_inert d m op hi .errAlloc href (by decide)
-  obtain ⟨r1, r2, r3, _⟩ := history_refines ops (stepM d m op).2.1 (stepM d m op).2.2
-    (by rw [hsame]; exact hi) hs (by rw [hsame]; exact hbound) (by rw [hsame]; exact hfree)
-  have habs : (stepM d m op).2.1.abs = d.abs := by rw [hsame]
-  rw [habs] at r1 r2
+    (runM d m (op :: ops)).1 = (stepM d m op).1 :: (runM d m' ops).1 ∧
+    (runM d m (op :: ops)).2.1 = (runM d m' ops).2.1 := by
+  obtain ⟨_, b2, _⟩ := blocked_inert d m op hi href
+  obtain ⟨r1, r2⟩ := C14Deque.history_allocator_independent ops d (stepM d m op).2.2 m' hs
   simp only [runM]
-  exact ⟨hsame, by rw [r1], r2, r3⟩
+  rw [b2]
+  exact ⟨rfl, by rw [r1], r2⟩
 
-/-- the same without the failed call, for comparison: identical outputs and content -/
-theorem without_the_refused_call (d : Deque) (m' : Mem) (ops : List Op) (hi : d.Inv) (hs : m'.sched = [])
-    (hbound : d.size + ops.length ≤ Gen.MAX_POW_TWO) (hfree : d3Free d.abs ops) :
-    (runM d m' ops).1 = (runS d.abs ops).1 ∧ (runM d m' ops).2.1.abs = (runS d.abs ops).2 := by
-  obtain ⟨r1, r2, _, _⟩ := history_refines ops d m' hi hs hbound hfree
-  exact ⟨r1, r2⟩
+/-- … and against the ideal list, for histories outside finding D3: the run after the blocked call refines
+the ideal list continued from the content *before* the failed call, whatever else is refused later -/
+theorem continue_refines (d : Deque) (m : Mem) (op : Op) (ops : List Op) (hi : d.Inv)
+    (href : blocked d m op = true)
+    (hfree : d3FreeB d.abs (ops.zip (flags d (stepM d m op).2.2 ops))) :
+    (runM d m (op :: ops)).1 = ⟨some .errAlloc, none⟩ :: (runB d.abs (ops.zip (flags d (stepM d m op).2.2 ops))).1 ∧
+    (runM d m (op :: ops)).2.1.abs = (runB d.abs (ops.zip (flags d (stepM d m op).2.2 ops))).2 ∧
+    (runM d m (op :: ops)).2.1.Inv := by
+  obtain ⟨b1, b2, _⟩ := blocked_inert d m op hi href
+  obtain ⟨r1, r2, r3, _⟩ := history_refines_sched ops d (stepM d m op).2.2 hi hfree
+  simp only [runM]
+  rw [b2, b1]
+  exact ⟨by rw [r1], r2, r3⟩
+
+/-- non-vacuity: an exactly full, wrapped deque; the first growth is refused (blocked, unchanged), the
+second succeeds -/
+example : blocked (Deque.mk 2 2 1 1 [12, 11] .conf) { sched := [true], live := 2 } (.addLast 5) = true ∧
+    (runM (Deque.mk 2 2 1 1 [12, 11] .conf) { sched := [true], live := 2 } [.addLast 5, .addLast 6]).2.1.abs
+      = [11, 12, 6] := by decide
 
 end CC.Properties.C08Deque
